@@ -28,7 +28,7 @@ EXHAUSTIVE = {"flag": True, "scope": "all shapes 0..3 x 0..3 for every directed 
 ANCHOR_FUNCS = ["table:Table.__init__", "table:Table.__rshift__", "table:Table.__lshift__", "table:Table.T", "table:Table.__getitem__", "table:Table.__iter__"]
 REQUIRED_STRATA = {"recompute": 200, "structural": 200, "steps": 2000}
 
-OPS = ["rows-by-own-int-column", "mask-none-then-lshift", "select-accessor-before-stored", "row-write-own-column", "row-held-across-writes", "colselect-2d-then-write", "write-bad-column-position", "gather-big", "sort-repeated-labels", ">>own-column-then-write", "rowslice-2d", "<<table-zero-rows", "<<row-bytearray", ">>nothing", ">>vector", ">>vector-wrong", ">>list", ">>dict", ">>dict-wrong", ">>table", ">>table-wrong", "<<row", "<<row-short", "<<row-long", "<<table", "<<row-widen", ">>dict-own-column",
+OPS = ["slice-write-reversed", "two-iterations-alive", "<<row-unsized", "<<row-onto-untyped-empty", "cells-with-shape-attribute", "rows-by-index-list", "rows-by-own-int-column", "mask-none-then-lshift", "select-accessor-before-stored", "row-write-own-column", "row-held-across-writes", "colselect-2d-then-write", "write-bad-column-position", "gather-big", "sort-repeated-labels", ">>own-column-then-write", "rowslice-2d", "<<table-zero-rows", "<<row-bytearray", ">>nothing", ">>vector", ">>vector-wrong", ">>list", ">>dict", ">>dict-wrong", ">>table", ">>table-wrong", "<<row", "<<row-short", "<<row-long", "<<table", "<<row-widen", ">>dict-own-column",
 	"rowslice", "rowmask", "T.T", "attr", "attr-wrong", "ragged-ctor", "attr-iterable", "setitem-table", "<<table-dupnames", ">>table-dupnames", "vector>>"]
 
 
@@ -450,6 +450,139 @@ def run_structural(chk, spec):
 			if M.snap_table(t) != before:
 				chk.fail("structural operations leave existing cells untouched (the result is a table of its own)", f"structural/{op}/operand-follows-result", f"{spec!r}: writing into the result changed the operand: {short(before, 160)} -> {short(M.snap_table(t), 160)}")
 				return
+	elif op == "slice-write-reversed":
+		# a row slice whose bounds select nothing (reversed, or past the end): as for a list, writing nothing - or a scalar - into it is a no-op or an error, never a longer column
+		if c == 0:
+			chk.skip("structural-no-columns")
+			return
+		start, stop, form = spec["key"]
+		if len(range(*slice(start, stop).indices(r))):
+			chk.skip("structural-slice-not-empty")
+			return
+		j = spec["seed"] % c
+		value = [[], 99 if j % 3 == 0 else ("z" if j % 3 == 1 else 2.5), None][form]
+		keyforms = [(slice(start, stop), names[j]), (slice(start, stop), j)]
+		o = call(t.__setitem__, keyforms[spec["seed"] // 7 % 2], value)
+		if fail_rect(chk, t, "after t[%r:%r, col] = %r" % (start, stop, value), spec):
+			return
+		if tcells(t) != [list(x) for x in cols] and not (o.ok and form == 2):
+			chk.fail("a write to an empty row slice changes no cell", f"structural/{op}/cells-changed", f"{spec!r}: cells {short(tcells(t), 200)} vs {short(cols, 200)} ({o!r})")
+		if o.ok and form == 2 and [[x for x in col] for col in tcells(t)] != [list(x) for x in cols]:
+			chk.fail("a write to an empty row slice changes no cell", f"structural/{op}/cells-changed", f"{spec!r}: cells {short(tcells(t), 200)} vs {short(cols, 200)}")
+		# whole-row form: t[start:stop] = zero-row table
+		o2 = call(t.__setitem__, slice(start, stop), t[0:0] if r else [])
+		if fail_rect(chk, t, "after t[%r:%r] = no rows" % (start, stop), spec):
+			return
+		if len(t) != r and c:
+			chk.fail("a write never changes the number of rows", f"structural/{op}/length-changed", f"{spec!r}: len {len(t)} after the write, was {r}")
+	elif op == "two-iterations-alive":
+		# two iterations of one table alive at once: each row obtained by iteration equals the tuple of the i-th column values while the other loop runs
+		if r < 2 or c == 0:
+			chk.skip("structural-too-small")
+			return
+		form = spec["key"][0]
+		exp = [tuple(col[i] for col in cols) for i in range(r)]
+		bad = None
+		if form == 0:
+			for i, outer in enumerate(t):
+				for k, inner in enumerate(t):
+					if not M.same_list(tuple(inner), exp[k]):
+						bad = ("inner", k, tuple(inner))
+				if not M.same_list(tuple(outer), exp[i]):
+					bad = ("outer", i, tuple(outer))
+					break
+		elif form == 1:
+			import itertools
+			for i, (a, b) in enumerate(zip(t, itertools.islice(iter(t), 1, None))):
+				if not M.same_list(tuple(a), exp[i]) or not M.same_list(tuple(b), exp[i + 1]):
+					bad = ("pair", i, (tuple(a), tuple(b)))
+					break
+		else:
+			it1 = iter(t)
+			first = next(it1)
+			seen = [tuple(x) for x in t]     # a complete second loop
+			if not M.same_list(tuple(first), exp[0]):
+				bad = ("kept-first", 0, tuple(first))
+			second = next(it1)
+			if bad is None and not M.same_list(tuple(second), exp[1]):
+				bad = ("resumed", 1, tuple(second))
+			if bad is None and any(not M.same_list(x, e) for x, e in zip(seen, exp)):
+				bad = ("second-loop", -1, seen)
+		if bad:
+			chk.fail("the i-th row obtained by iteration equals the tuple of the i-th values of the columns", f"structural/{op}/{bad[0]}", f"{spec!r}: {bad[0]} row {bad[1]} reads {short(bad[2], 160)}; rows are {short(exp, 160)}")
+	elif op == "<<row-unsized":
+		# a row given as an iterator has no length to check beforehand: too few or too many cells must still be rejected, the right number appended (or refused)
+		if c == 0:
+			chk.skip("structural-no-columns")
+			return
+		delta, kind = spec["key"][0], spec["key"][1]
+		row = [pool.make_like(rng, cols[j][0]) if r else [1, "s", 2.5][j % 3] for j in range(c)]
+		cells_ = (row + [7, 8])[:c + delta] if delta >= 0 else row[:c + delta]
+		operand = [lambda: (x for x in cells_), lambda: iter(cells_), lambda: map(lambda x: x, cells_)][kind]()
+		o = call(lambda: t << operand)
+		if delta != 0:
+			if o.ok and isinstance(o.value, (Table, Vector)) and not (isinstance(o.value, Table) is False and len(cells_) == 0 and False):
+				chk.fail("input that would make a table ragged is rejected rather than stored", f"structural/{op}/ragged-accepted", f"{spec!r}: t << <iterator of {len(cells_)} cells> on {c} columns returned {type(o.value).__name__} {short(o.value, 120)}")
+		elif o.ok:
+			expect_cells(chk, spec, o.value, [list(x) + [y] for x, y in zip(cols, row)], "<< appends one row to every column", "wrong-cells")
+		else:
+			chk.skip("structural-unsized-row-refused")
+	elif op == "<<row-onto-untyped-empty":
+		# a table built from empty lists has columns that were never typed: a row still appends to every one of them
+		if c == 0:
+			chk.skip("structural-no-columns")
+			return
+		form = spec["key"][0]
+		e = Table({nm: [] for nm in names}) if form < 2 else Table([Vector([], name=nm) for nm in names])
+		row = [[1, "s", 2.5][j % 3] for j in range(c)]
+		o = call(lambda: e << (row if form % 2 == 0 else Table([Vector([x], name=nm) for x, nm in zip(row, names)])))
+		if not o.ok:
+			chk.fail("<< appends rows to every column", f"structural/{op}/raises/{type(o.exc).__name__}", f"{spec!r}: a row appended to a zero-row table of {c} untyped columns raised {o!r}")
+			return
+		expect_cells(chk, spec, o.value, [[x] for x in row], "<< appends one row to every column", "wrong-cells")
+		lone = call(lambda: Vector([]) << row[0])
+		if not lone.ok or list(lone.value._underlying) != [row[0]]:
+			chk.fail("<< appends rows to every column", f"structural/{op}/vector/{'raises' if not lone.ok else 'wrong-cells'}", f"{spec!r}: Vector([]) << {row[0]!r} gave {lone!r}")
+	elif op == "cells-with-shape-attribute":
+		# a cell is a cell whatever attributes it has: objects carrying .shape (arrays) do not add dimensions to the table
+		if r == 0 or c == 0:
+			chk.skip("structural-no-cells")
+			return
+		class Arr:
+			def __init__(self, shape): self.shape = shape
+		where = spec["key"][0] % c
+		shp = [(7,), (2, 2), ()][spec["key"][1]]
+		acol = [Arr(shp) for _ in range(r)]
+		cs = [list(x) for x in cols]
+		cs[where] = acol
+		ta = Table([Vector(col, name=nm) if j != where else Vector(col, dtype=object, name=nm) for j, (col, nm) in enumerate(zip(cs, names))])
+		sh = call(lambda: ta.shape)
+		if not sh.ok or tuple(sh.value) != (r, c):
+			chk.fail("the shape of a table is (rows, columns)", f"structural/{op}/shape", f"{spec!r}: shape {sh!r} of a {r}x{c} table whose column {where} holds objects with .shape = {shp!r}")
+			return
+		if fail_rect(chk, ta, "table with .shape cells", spec):
+			return
+		cell = call(lambda: ta[r - 1, c - 1])
+		if not cell.ok or not M.same(cell.value, cs[c - 1][r - 1]):
+			chk.fail("the i-th row equals the tuple of the i-th values of the columns", f"structural/{op}/cell-read", f"{spec!r}: t[{r - 1}, {c - 1}] gave {cell!r}")
+		rp = call(repr, ta)
+		if not rp.ok or f"{r}×{c} table" not in rp.value:
+			chk.fail("the shape of a table is (rows, columns)", f"structural/{op}/repr", f"{spec!r}: repr {short(rp.value if rp.ok else rp, 160)}")
+	elif op == "rows-by-index-list":
+		# t[[i, j, ...]] selects those rows from every column alike, as v[[i, j, ...]] does from one vector
+		if r == 0 or c == 0:
+			chk.skip("structural-no-cells")
+			return
+		idxs = [[0], [r - 1, 0], [0, 0, r - 1], [-1], list(range(r))[::-1]][spec["key"][0]]
+		one = call(lambda: Vector(list(cols[0]))[idxs])
+		o = call(lambda: t[idxs])
+		if not one.ok:
+			chk.skip("structural-index-list-not-supported")
+			return
+		if not o.ok:
+			chk.fail("row selection applies to every column alike", f"structural/{op}/raises/{type(o.exc).__name__}", f"{spec!r}: t[{idxs!r}] raised {o!r}")
+			return
+		expect_cells(chk, spec, o.value, [[col[i] for i in idxs] for col in cols], "row selection applies to every column alike", "wrong-cells")
 	elif op == "<<row-bytearray":
 		# a cell that is itself a byte buffer is ONE cell
 		if r == 0:
@@ -682,6 +815,18 @@ def run(chk):
 					variants = [(j, f, 0) for j in range(max(c, 1)) for f in range(5)] if r and c else []
 				elif op == "write-bad-column-position":
 					variants = [(b, f, 0) for b in range(5) for f in range(4)] if r and c else []
+				elif op == "slice-write-reversed":
+					variants = [(a, b, f) for (a, b) in ((3, 1), (2, 0), (-1, 1), (4, 2), (9, 12), (2, 2), (-1, -3)) for f in range(3)] if c else []
+				elif op == "two-iterations-alive":
+					variants = [(f, 0, 0) for f in range(3)] if r >= 2 and c else []
+				elif op == "<<row-unsized":
+					variants = [(d, k, 0) for d in (-1, 0, 1, -c) for k in range(3)] if c else []
+				elif op == "<<row-onto-untyped-empty":
+					variants = [(f, 0, 0) for f in range(4)] if c and r == 0 else []
+				elif op == "cells-with-shape-attribute":
+					variants = [(w, s_, 0) for w in range(max(c, 1)) for s_ in range(3)] if r and c else []
+				elif op == "rows-by-index-list":
+					variants = [(f, 0, 0) for f in range(5)] if r and c else []
 				elif op == "rowslice-2d":
 					variants = [(None, None, None), (1, None, None), (None, None, -1), (None, -1, None), (-1, None, -1), (5, None, -2), (2, 0, -1), (-9, 2, 2), (None, None, -2)]
 				elif op == "<<row-bytearray":
